@@ -489,6 +489,7 @@ _COLOR_BAD = [("malformed", "#FFF"), ("malformed", "#GGGGGG"), ("malformed", "#F
 INVALID = {
   ("general", "progress_bar"): _BOOL_BAD,
   ("general", "log_level"): [("unknown-keyword", "info"), ("unknown-keyword", "VERBOSE"), ("unknown-keyword", ""),
+                             ("unknown-keyword", "DEBUG"), ("unknown-keyword", "WARNING"), ("unknown-keyword", "CRITICAL"), ("unknown-keyword", "NOTSET"),
                              ("wrong-type", 20), ("wrong-type", True), ("wrong-type", 1.5), ("wrong-type", []),
                              ("wrong-type", {}), ("wrong-type", ["INFO"])],
   ("general", "document_lang"): [("wrong-type", 5), ("wrong-type", True), ("wrong-type", []), ("wrong-type", {}),
@@ -496,7 +497,7 @@ INVALID = {
   ("imsc_writer", "time_format"): [("unknown-keyword", "FRAMES"), ("unknown-keyword", "smpte"), ("unknown-keyword", ""),
                                    ("unknown-keyword", "clock_time "), ("wrong-type", 1), ("wrong-type", True),
                                    ("wrong-type", ["frames"]), ("wrong-type", {})],
-  ("imsc_writer", "fps"): [("out-of-range", "0/1"), ("out-of-range", "-25/1"), ("malformed", " 25/1"), ("malformed", "25/1_0"), ("malformed", "25"), ("malformed", "25/"), ("malformed", "/1"), ("malformed", "25/1/1"),
+  ("imsc_writer", "fps"): [("out-of-range", "0/1"), ("out-of-range", "-25/1"), ("malformed", " 25/1"), ("malformed", "25/1_0"), ("malformed", "\uff12\uff15/\uff11"), ("malformed", "25"), ("malformed", "25/"), ("malformed", "/1"), ("malformed", "25/1/1"),
                            ("malformed", "a/b"), ("malformed", "25.0/1"), ("malformed", ""), ("malformed", "25:1"),
                            ("malformed", "25/0"), ("wrong-type", 25), ("wrong-type", 25.0), ("wrong-type", True),
                            ("wrong-type", ["25/1"]), ("wrong-type", [25, 1]), ("wrong-type", {})],
